@@ -91,9 +91,21 @@ var c09from = Register("C09", "C09.fromfloat", func(a c09FromArgs) *Violation {
 			return violf("FromFloat32(%v).Float32() = %v", f32, back)
 		}
 	}
+	if f64 := float64(f32); f32 == f32 && !math.IsInf(f64, 0) && f32 != 0 {
+		if k, _ := inexactClass(exactOfFloat64(f64)); k == "exact" {
+			if v := exactInAllModes("FromFloat32("+fstr(f64)+")", d32, func() d128.Decimal { return d128.FromFloat32(f32) }); v != nil {
+				return v
+			}
+		}
+	}
 	if !math.IsNaN(f) && !math.IsInf(f, 0) && f != 0 {
 		x := exactOfFloat64(f)
 		k, _ := inexactClass(x)
+		if k == "exact" {
+			if v := exactInAllModes("FromFloat64("+fstr(f)+")", d, func() d128.Decimal { return d128.FromFloat64(f) }); v != nil {
+				return v
+			}
+		}
 		_, e := math.Frexp(f)
 		switch {
 		case a.Bits64<<1>>53 == 0:
